@@ -182,7 +182,9 @@ def _assemble(f: FunctionInfo, var: str, ref_set: bool, proj_set: bool, ref_para
     env = {"self.ref_state": (mk("R") if ref_set else None), "self.reference_circuit": (mk("R") if ref_set else CircRec([])),
            "self.ansatz.circuit": mk("A"), "self.projective_circuit": (mk("P") if proj_set else None), "self.deflation_circuits": []}
     env["self"] = Rec("VQESolver", {})
-    fo = Folder(env=env, ctors=dict(CTORS))
+    ctors = dict(CTORS)
+    ctors[("Circuit", "copy")] = lambda obj, a, k: CircRec(list(obj.fields["_gates"]), n_qubits=obj.fields.get("_qubits_simulated"))
+    fo = Folder(env=env, ctors=ctors)
     if ref_param:
         # the entry point is evaluated without an explicit reference argument: the parameter takes its default value
         a = f.node.args
@@ -210,6 +212,7 @@ def _assemble(f: FunctionInfo, var: str, ref_set: bool, proj_set: bool, ref_para
     c = fo.env.get(var)
     if c is None and var.startswith("self."):
         c = fo.env["self"].fields.get(var[5:])
+    _assemble.last_is_ansatz_object = c is env["self.ansatz.circuit"]
     return [g.fields["name"] for g in c.fields["_gates"]]
 
 
@@ -237,6 +240,16 @@ def check_circuit_assembly(idx: Index, rep: Report):
                                 + (" (evaluated without an explicit reference argument)" if ref_param else ""),
                            reason=f"{f.name} assembles {' + '.join(got) if got else 'an empty circuit'} instead of {' + '.join(want)}"
                                   + (": the default evaluation ignores the solver's reference-state override" if ref_param and ref_set and "R" not in got else ""))
+    # the circuit stored as the result of the optimisation must not be the ansatz' own circuit object: every later evaluation rewrites that object's angles
+    sim = idx.function(f"{VQE}::VQESolver.simulate")
+    for ref_set in (False, True):
+        for proj_set in (False, True):
+            _assemble(sim, "self.optimal_circuit", ref_set, proj_set, None)
+            rep.decide(not _assemble.last_is_ansatz_object, "K2.result-aliases-state", sim, sim.node,
+                       text=f"simulate: optimal_circuit (reference override {'set' if ref_set else 'unset'}, projective {'set' if proj_set else 'unset'}) is an object of its own",
+                       what="the circuit kept as the result of the optimisation goes on preparing the optimal state when the solver is used again",
+                       reason="optimal_circuit is the very object ansatz.circuit: a later energy_estimation / operator_expectation with other parameters rewrites its angles, "
+                              "and optimal_energy is no longer the energy of optimal_circuit")
     calls = [c for c in own_nodes(ee.node) if isinstance(c, ast.Call) and norm(c.func) == "self.backend.get_expectation_value"]
     ok = len(calls) == 1 and [norm(a) for a in calls[0].args] == ["self.qubit_hamiltonian", "circuit"] and any(k.arg is None and norm(k.value) == "self.simulate_options" for k in calls[0].keywords)
     rep.decide(ok, rule, ee, calls[0] if calls else ee.node, text="energy = <qubit_hamiltonian> on that circuit, with the solver's simulate options",
